@@ -2,8 +2,8 @@ package an
 
 import (
 	"fmt"
-	"sort"
 	"go/token"
+	"sort"
 	"strings"
 
 	"golang.org/x/text/unicode/norm"
@@ -72,7 +72,7 @@ func (a *Analysis) ruleT2T6() {
 					if len(x.Vals) != 2 {
 						continue
 					}
-					ev, _ := x.Vals[1].(ErrV)
+					ev := asErr(x.Vals[1])
 					if ev.Kind != ekNil {
 						continue
 					}
@@ -408,7 +408,7 @@ func (a *Analysis) ruleLayouts() {
 				if x.InLoop || !x.AfterLoop {
 					continue
 				}
-				ev, _ := x.Vals[len(x.Vals)-1].(ErrV)
+				ev := asErr(x.Vals[len(x.Vals)-1])
 				xp := a.P.InstrPos(x.Ret)
 				// the nearest controlling condition must be the checksum comparison
 				var cmp *EdgeCond
